@@ -395,6 +395,7 @@ def run_case(case):
         e = builder_edit(rnd, h.spec) if (kind != "mixed_history" or rnd.random() < 0.6) else h.propose(["num", "link", "list_mut", "starts"])
         if e is None:
             continue
+        spec_before_ = h.spec
         spec_after = h.spec_after(e)
         ref, err = h.reference(spec_after)
         if ref is None:
@@ -411,8 +412,9 @@ def run_case(case):
             s1, s2 = observe.snapshot(h.system), observe.snapshot(ref[h.spec["system"]])
             d = observe.diff(s1, s2)
             if d:
+                from .c01 import f3_mechanism
                 V.append({"kind": "derived parameters not refreshed after a builder input changed (live != rebuilt)", "n_slots": len(d),
-                          "slots": observe.explain_diff(s1, s2, d), **ectx})
+                          "slots": observe.explain_diff(s1, s2, d), "mechanism": f3_mechanism(spec_before_, spec_after, d), **ectx})
                 break
         check_rules(h.spec, h.objs, V, C, ectx)
         nt = compare_with_twin(h.spec, h.objs, V, C, ectx) or nt
@@ -449,3 +451,8 @@ def categorical_alternatives(rnd, spec, n, p):
         c = [i for pr, i in D["instances"] if pr == prov and i != cur]
         return rnd.sample(c, min(2, len(c)))
     return []
+
+
+def witness(fid):
+    from .c01 import witness as w
+    return w(fid)
